@@ -182,8 +182,8 @@ func c15RetryAgreement(e *Env) {
 			e.R.Check(bad == "", rule, construct, e.pos(retry), "the retry after ErrTooSmall repeats the same call with the same non-buffer arguments", bad)
 		}
 	}
-	if n < 8 {
-		e.R.Undecided(rule, "retry-idiom:sites", "-", fmt.Sprintf("%d grow-and-retry sites found, at least 8 confirmed by hand", n))
+	if n < 4 { // 8+ on the pinned tree; sites that share one retry helper count once
+		e.R.Undecided(rule, "retry-idiom:sites", "-", fmt.Sprintf("%d grow-and-retry sites found, at least 4 expected (8 confirmed by hand on the pinned tree, fewer when sites share a helper)", n))
 	}
 }
 
